@@ -106,7 +106,9 @@ func c02Exec(raw json.RawMessage) Result {
 		o = c02Oracle(&op, line)
 	}
 	nf := len(op.Fields) + len(op.Ctx)
-	return Result{Impl: encImpl(line, pmsg), Oracle: o, Nontrivial: nf >= 2, Shape: encShape(&op, "json")}
+	impl := encImpl(line, pmsg)
+	impl["map"] = mapSkeleton(&op)
+	return Result{Impl: impl, Oracle: o, Nontrivial: nf >= 2, Shape: encShape(&op, "json")}
 }
 
 func c02Oracle(op *encOp, line []byte) Oracle {
